@@ -112,6 +112,7 @@ class Kernel:
         self.eager_timeouts = False   # timed waits may expire although other tasks are enabled
         self.expired_early = 0
         self.trace_repeat_limit = 3
+        self.trace_funcs = ()         # if non-empty: only functions with these names are traced
 
     # -- called from any thread -------------------------------------------------------------
     def current(self) -> Optional[Task]:
@@ -149,6 +150,8 @@ class Kernel:
             return None
         fn = frame.f_code.co_filename
         if not any(sfx in fn for sfx in self.trace_files):
+            return None
+        if self.trace_funcs and frame.f_code.co_name not in self.trace_funcs:
             return None
         base = fn.rsplit('/', 1)[-1]
 
